@@ -174,22 +174,40 @@ def judge (op : List String) (go : String) : Verdict :=
   let stream := op.headD ""
   match go.splitOn " @@ " with
   | [sx, oi, ov] =>
-    let tags0 := ((field op "forms").splitOn ",").filter (· ≠ "")
+    let gen := field op "gen"
+    let tags0 := (if gen.isEmpty then [] else ["gen-" ++ gen]) ++ ((field op "forms").splitOn ",").filter (· ≠ "")
     let i := parseObs oi
     let v := parseObs ov
     if sx.startsWith "reject:" then .skip "rejected-by-checker" else
     let prog := if sx.startsWith "oof:" then none else readProgram sx
     -- direct oracles
     if isBad i.out || isBad v.out then
+      let srcLines := ((op.getLast?.getD "").splitOn "\\n").map (fun l => l.trimAscii.toString)
+      let selfSwap := srcLines.any fun l =>
+        match l.splitOn " <-> " with
+        | [a, b] => a == b && !a.isEmpty
+        | _ => false
+      let bothInvalidated := i.out == "internal:invalidated-resource" && v.out == "internal:invalidated-resource"
       if (prog.map programHasUnboxedCond).getD false && i.out == "internal:member-type" && !isBad v.out then
         .violation "conditional-result-not-boxed" "no internal error for a checker-accepted program" tags0
+      -- `v <-> v` on a resource variable: both engines end in the internal InvalidatedResourceError
+      else if bothInvalidated && selfSwap then
+        .violation "resource-self-swap" "no internal error for a checker-accepted program" tags0
+      -- a post-condition inherited from an interface reads a resource parameter that the implementation
+      -- has moved / destroyed: both engines end in the internal InvalidatedResourceError
+      else if bothInvalidated && srcLines.any (·.contains "interface") && srcLines.any (·.startsWith "post {") then
+        .violation "inherited-post-condition-reads-moved-resource" "no internal error for a checker-accepted program" tags0
       else .violation "go-internal-error" ("no internal error / crash for a checker-accepted program; interp=" ++ i.out ++ " vm=" ++ v.out) tags0
-    else if oi ≠ ov then .violation "engines-differ" ("vm observation = interpreter observation = " ++ oi) tags0
+    -- (stream nointernal is about internal errors only; engine equivalence is C34's stream)
+    else if oi ≠ ov && stream != "nointernal" then
+      .violation "engines-differ" ("vm observation = interpreter observation = " ++ oi) tags0
     else
       match (streamOracle stream op i "interp").orElse (fun _ => streamOracle stream op v "vm") with
       | some verdict => verdict
       | none =>
-      if sx.startsWith "oof:" then .skip ("out-of-fragment:" ++ (sx.drop 4).toString)
+      if sx.startsWith "oof:" || gen == "wild" || gen == "casts" then
+        (if stream == "nointernal" then .ok ("!nt" :: "oracle-only" :: ("out-" ++ (i.out.takeWhile (· ≠ ':')).toString) :: tags0)
+         else .skip ("out-of-fragment:" ++ (sx.drop 4).toString))
       else if i.out.startsWith "user:computation-limit" then .skip "computation-limit"
       else
         match prog with
